@@ -157,6 +157,15 @@ func runC20(o *out, r *rng, thorough bool, replay string) {
 		}
 		must(sub.VerifInit(ctx))
 		sub.VerifPeerSeen(net.srvHost.ID())
+		// the node's own GPBFT may store certificates between two rounds: they count as progress of the round that notices them
+		loc := 0
+		if have < total && r.chance(50) {
+			loc = 1 + r.intn(total-have)
+			for _, c := range all[have : have+loc] {
+				must(cstore.Put(ctx, c))
+			}
+			o.Dist["subscriber-round-with-local-progress"]++
+		}
 		before := sub.VerifPoller().NextInstance
 		progress, newCert, err := sub.VerifPollOnce(ctx)
 		after := sub.VerifPoller().NextInstance
@@ -172,7 +181,7 @@ func runC20(o *out, r *rng, thorough bool, replay string) {
 				o.violate("progress equals the number of instances the store advanced", "subscriber-progress", in,
 					fmt.Sprintf("progress=%d (as signed %d) next before=%d after=%d store_next=%d", progress, int64(progress), before, after, latest))
 			}
-			if newCert != (total > have) {
+			if newCert != (total > have+loc) {
 				o.violate("new-certificate flag reflects certificates received", "subscriber-newcert", in, fmt.Sprint(newCert))
 			}
 		}
